@@ -43,20 +43,27 @@ ok = rc_with != 0 and rc_without == 0 and " failed" not in suite
 if not ok:
     print("NOT CONFIRMED")
     sys.exit(1)
-# 4. run the checks against it in /repo
-assert subprocess.run("git -C /repo status --porcelain", shell=True, stdout=subprocess.PIPE, text=True).stdout.strip() == "", "/repo not clean"
+# 4. run the checks against it: in /repo (applied, checked, reverted), or - SEEDED_IN_WORKTREE=1, for use while something
+#    else needs /repo untouched - against the worktree itself (VF_REPO puts it in front of the editable install)
+in_wt = os.environ.get("SEEDED_IN_WORKTREE") == "1"
 results = {}
 try:
-    rc, o = sh("git -C /repo apply %s" % patch)
-    assert rc == 0, o
+    if in_wt:
+        cenv = dict(os.environ, VF_REPO=wt)
+    else:
+        assert subprocess.run("git -C /repo status --porcelain", shell=True, stdout=subprocess.PIPE, text=True).stdout.strip() == "", "/repo not clean"
+        rc, o = sh("git -C /repo apply %s" % patch)
+        assert rc == 0, o
+        cenv = dict(os.environ)
     for cid in [pid] + extra:
         t0 = time.time()
-        rc, o = sh("timeout 1400 ./check %s" % cid, cwd="/verif", env=dict(os.environ))
+        rc, o = sh("timeout 1400 ./check %s" % cid, cwd="/verif", env=cenv)
         lines = [l for l in o.splitlines() if l.startswith(("VIOLATION", "  clause", "  law violated", "  rejected", "  violated", "MACHINERY", cid))]
         results[cid] = {"exit": rc, "wall_s": round(time.time() - t0, 1), "lines": lines[:8]}
         print(cid, "exit", rc, "|", lines[:3])
 finally:
-    sh("git -C /repo checkout -- .")
+    if not in_wt:
+        sh("git -C /repo checkout -- .")
 dst = "/verif/seeded/" + pid
 os.makedirs(dst, exist_ok=True)
 shutil.copy(patch, dst)
@@ -64,7 +71,7 @@ shutil.copy(os.path.join(out, "demo.py"), dst)
 meta.update({"confirmed": {"demo_with_change_rc": rc_with, "demo_without_change_rc": rc_without, "suite_with_change": suite,
                            "commands": ["cd <worktree> && PYTHONPATH=<worktree> /venv/bin/python _out/demo.py",
                                         "pytest -q --deselect tests/test_interfaces_communications.py (in the worktree)",
-                                        "git -C /repo apply patch.diff && ./check %s && git -C /repo checkout -- ." % pid]},
+                                        ("VF_REPO=<worktree with the change> ./check %s" if in_wt else "git -C /repo apply patch.diff && ./check %s && git -C /repo checkout -- .") % pid]},
              "checks": results, "detected_by": [c for c, r in results.items() if r["exit"] == 1]})
 json.dump(meta, open(os.path.join(dst, "meta.json"), "w"), indent=1)
 print("saved to", dst, "detected_by", meta["detected_by"])
